@@ -725,6 +725,7 @@ def run_tuner(params, script, scheduler_factory=None, hard_limit=400):
         else:
             os.environ["SYNETUNE_FOLDER"] = old_folder
     return dict(trace=trace, outcome=outcome, smap=smap, counters=counters, aborted=aborted, copies=backend.copies,
+                copy_fault=backend.copy_fault,
                 replaced_exception=replaced_exception, second_trace=second_trace, second_outcome=second_outcome,
                 **snapshot)
 
